@@ -4,7 +4,7 @@ from __future__ import annotations
 
 import math
 import warnings
-from numbers import Number
+from numbers import Integral, Number
 from typing import Optional, Tuple, Union
 
 import torch
@@ -407,6 +407,9 @@ class MultivariateNormal(TMultivariateNormal, Distribution):
 
         if not isinstance(idx, tuple):
             idx = (idx,)
+        # Bring the index objects that `mean[idx]` accepts into the forms handled below:
+        # numpy integers / 0-dim integer tensors -> int, lists and 1-dim boolean masks -> integer index tensors
+        idx = tuple(_normalize_index(i) for i in idx)
         if len(idx) > self.mean.dim() and Ellipsis in idx:
             idx = tuple(i for i in idx if i != Ellipsis)
             if len(idx) < self.mean.dim():
@@ -450,6 +453,20 @@ class MultivariateNormal(TMultivariateNormal, Distribution):
 
     def __truediv__(self, other: Number) -> MultivariateNormal:
         return self.__mul__(1.0 / other)
+
+
+def _normalize_index(i):
+    if isinstance(i, list):
+        i = torch.as_tensor(i)
+    if torch.is_tensor(i):
+        if i.dtype == torch.bool and i.dim() == 1:
+            return i.nonzero(as_tuple=True)[0]
+        if i.dim() == 0 and i.dtype != torch.bool and not i.dtype.is_floating_point:
+            return int(i)
+        return i
+    if isinstance(i, Integral) and not isinstance(i, (bool, int)):
+        return int(i)  # e.g. numpy.int64
+    return i
 
 
 @register_kl(MultivariateNormal, MultivariateNormal)
